@@ -226,6 +226,9 @@ func (e *Env) eval(x Expr) Val {
 		}
 		return e.fail("cannot slice %s", n.X.String())
 	case *EUnary:
+		if n.Op == "*" {
+			return e.callExpr(&ECall{Fun: &EIdent{Name: "deref"}, Args: []Expr{n.X}})
+		}
 		v := e.eval(n.X)
 		if n.Op == "!" {
 			return boolVal(not(v.T))
@@ -715,6 +718,15 @@ func (e *Env) callExpr(n *ECall) Val {
 		case "kv":
 			w := e.world(argv(0))
 			return Val{S: "KV", T: "(select (w_kv " + w + ") " + svcID(argv(1)) + ")"}
+		case "onlyPrefixChanged":
+			// onlyPrefixChanged(w0, w1, p): world w1 differs from w0 at most at keys that start with p (in any
+			// module store); bank ledger and auxiliary state are equal
+			w0, w1, p := argv(0).T, argv(1).T, str(2)
+			return boolVal("(and (= (w_led " + w1 + ") (w_led " + w0 + ")) (= (w_aux " + w1 + ") (w_aux " + w0 + ")) " +
+				"(forall ((qs!s Int) (qs!k String)) (! (=> (not (str.prefixof " + p + " qs!k)) (and " +
+				"(= (select (kv_has (select (w_kv " + w1 + ") qs!s)) qs!k) (select (kv_has (select (w_kv " + w0 + ") qs!s)) qs!k)) " +
+				"(= (select (kv_val (select (w_kv " + w1 + ") qs!s)) qs!k) (select (kv_val (select (w_kv " + w0 + ") qs!s)) qs!k)))) " +
+				":pattern ((select (kv_has (select (w_kv " + w1 + ") qs!s)) qs!k)) :pattern ((select (kv_val (select (w_kv " + w1 + ") qs!s)) qs!k)))))")
 		case "kvOf":
 			// kvOf(w, svc): the key-value store of service svc in world w
 			return Val{S: "KV", T: "(select (w_kv " + argv(0).T + ") " + svcID(argv(1)) + ")"}
@@ -952,6 +964,14 @@ func (e *Env) callExpr(n *ECall) Val {
 		// Go function in the contract's package
 		if fn := fc.W.Funcs[shortPkg(e.pkgPath)+"."+id.Name]; fn != nil {
 			return e.goCall(fn, nil, n.Args)
+		}
+		// package-level `var X = regexp.MustCompile(lit).MatchString`
+		if lit, ok := fc.W.globalRegexLiteral(e.pkgPath, id.Name); ok && len(n.Args) == 1 {
+			if re, ok := regexToSMT(lit); ok {
+				s, _ := asString(argv(0))
+				fc.trusted["regexp "+e.pkgPath+"."+id.Name+" = "+lit+" translated to an SMT regular expression (RE2 subset)"] = true
+				return boolVal("(str.in_re " + s + " " + re + ")")
+			}
 		}
 		return e.fail("unknown function %s", id.Name)
 	}
